@@ -1143,6 +1143,237 @@ def rule_memo_key(chk, mod):
 
 
 # ----------------------------------------------------------------------------
+# round 11: fork of pyscf.dft.gen_grid.gen_atomic_grids; table extents in sph_harm.c; minimum lmax
+# ----------------------------------------------------------------------------
+PYSCF_REL = "pyscf/dft/gen_grid.py"
+
+
+def _site_packages_with(rel):
+    import glob as _glob
+    env = os.environ.get("VERIF_SITE_PACKAGES")
+    for c in ([env] if env else sorted(_glob.glob("/venv/lib/python3*/site-packages"))):
+        if c and os.path.exists(os.path.join(c, rel)):
+            return c
+    raise core.AnalysisError("installed source %s not found (set VERIF_SITE_PACKAGES): the sibling implementation "
+                             "cannot be read" % rel)
+
+
+def _grid_facts(mod, fn, wrappers):
+    """configuration facts of an atomic-grid generator (names of locals do not matter)"""
+    params = {a.arg for a in fn.args.args + fn.args.kwonlyargs}
+    grid_param = "atom_grid" if "atom_grid" in params else None
+    facts = {}
+    env = {}
+    for x in pf.walk_no_nested(fn):
+        if isinstance(x, ast.Assign) and len(x.targets) == 1 and isinstance(x.targets[0], ast.Name):
+            env.setdefault(x.targets[0].id, []).append(x.value)
+
+    def callee_family(e, depth=2):
+        out = set()
+        for c in ast.walk(e):
+            if isinstance(c, ast.Call):
+                nm = pf.call_name(c)
+                if nm is None:
+                    continue
+                last = nm.split(".")[-1]
+                if depth > 0 and nm in wrappers:
+                    for alt in wrappers[nm]:
+                        out |= callee_family(alt, depth - 1)
+                else:
+                    out.add(last)
+        return out
+    for c in pf.walk_no_nested(fn):
+        if not isinstance(c, ast.Call):
+            continue
+        f = c.func
+        nm = pf.call_name(c)
+        # calls of the generator's own parameters (radial scheme, pruning)
+        if isinstance(f, ast.Name) and f.id in params and f.id != "callable":
+            facts[("param-call", f.id)] = (len(c.args), any(k.arg is None for k in c.keywords))
+            if f.id == "radi_method" and len(c.args) >= 2 and isinstance(c.args[1], ast.Name):
+                fam = set()
+                for v in env.get(c.args[1].id, []):
+                    fam |= callee_family(v)
+                facts[("charge-of-atom",)] = tuple(sorted(fam))
+        # level defaults
+        if nm and nm.split(".")[-1] in ("_default_rad", "_default_ang"):
+            facts[("default", nm.split(".")[-1])] = len(c.args)
+        # dictionary lookups on atom_grid
+        if isinstance(f, ast.Attribute) and f.attr == "get" and isinstance(f.value, ast.Name) and f.value.id == grid_param and c.args:
+            k = c.args[0]
+            if isinstance(k, ast.Constant):
+                facts[("atom_grid-key", k.value)] = True
+            else:
+                fb = c.args[1] if len(c.args) > 1 else None
+                facts[("atom_grid-per-atom", "falls back to the 'default' entry")] = bool(
+                    fb is not None and not (isinstance(fb, ast.Constant) and fb.value is None))
+    for x in pf.walk_no_nested(fn):
+        if isinstance(x, ast.Subscript) and isinstance(x.value, ast.Name) and x.value.id == grid_param \
+                and isinstance(x.slice, ast.Constant):
+            facts[("atom_grid-key", x.slice.value)] = True
+        if isinstance(x, ast.Compare) and len(x.ops) == 1 and isinstance(x.ops[0], (ast.In, ast.NotIn)) \
+                and isinstance(x.comparators[0], ast.Name) and x.comparators[0].id.isupper():
+            facts[("validated-against", x.comparators[0].id)] = True
+    if ("atom_grid-per-atom", "falls back to the 'default' entry") not in facts:
+        facts[("atom_grid-per-atom", "falls back to the 'default' entry")] = False
+    return facts
+
+
+def rule_pyscf_mirror(chk, mod):
+    site = _site_packages_with(PYSCF_REL)
+    ptree = core.Tree(site)
+    pmod = pf.Module(ptree, PYSCF_REL)
+    if "gen_atomic_grids" not in pmod.functions:
+        raise core.AnalysisError("pyscf.dft.gen_grid.gen_atomic_grids not found in the installed source")
+    cfn = mod.func("gen_atomic_grids_cider")
+    # one level of module-level wrappers of the fork (def _grid_charge(symb): return elements_proton(...))
+    wrappers = {}
+    for name, f in getattr(mod, "orig", mod).functions.items():
+        rets = [x for x in pf.walk_no_nested(f) if isinstance(x, ast.Return) and x.value is not None]
+        if len(rets) == 1 and len(f.body) <= 2:
+            wrappers.setdefault(name, []).append(rets[0].value)
+    for n in ast.walk(getattr(mod, "orig", mod).ast):
+        if isinstance(n, ast.FunctionDef) and n.name not in getattr(mod, "orig", mod).functions:
+            rets = [x for x in pf.walk_no_nested(n) if isinstance(x, ast.Return) and x.value is not None]
+            if len(rets) == 1 and len(n.body) <= 2 and pf.enclosing_class(n) is None and pf.enclosing_func(n) is None:
+                wrappers.setdefault(n.name, []).append(rets[0].value)
+    pf_ = _grid_facts(pmod, pmod.functions["gen_atomic_grids"], {})
+    cf_ = _grid_facts(mod, cfn, wrappers)
+    chk.extra["pyscf_source"] = os.path.join(site, PYSCF_REL)
+    for key, want in sorted(pf_.items(), key=str):
+        got = cf_.get(key)
+        label = " ".join(str(k) for k in key)
+        inst = "gen_atomic_grids_cider mirrors pyscf.dft.gen_grid.gen_atomic_grids: %s" % label
+        okf = got == want
+        if key == ("charge-of-atom",) and got is not None:
+            okf = set(want) <= set(got)
+        if key[0] == "param-call" and got is not None:
+            okf = got[0] == want[0] and got[1] == want[1]
+        if okf:
+            chk.ok("pyscf-mirror", inst, detail=str(want))
+        elif key[0] == "validated-against":
+            # an input PySCF accepts (after remapping) and the fork rejects with an exception: loud, not a silently
+            # different grid -- recorded, not a violation of "same points for the same settings"
+            chk.ok("pyscf-mirror", inst + " (fork rejects instead: noted)", nontrivial=False)
+            chk.note("pyscf-mirror", "gen_atomic_grids_cider",
+                     "pyscf consults %s (accepts and remaps such n_ang with a warning); the fork raises ValueError for them"
+                     % key[1])
+        else:
+            chk.violation("pyscf-mirror", GG, "gen_atomic_grids_cider", label, cfn.lineno,
+                          "the installed pyscf.dft.gen_grid.gen_atomic_grids has `%s` = %s, but its CIDER fork has %s: "
+                          "with the same settings the CIDER grid is not PySCF's grid (e.g. atom_grid={'default': ...} or "
+                          "ghost atoms give a different number of points)" % (label, want, got), instance=inst)
+
+
+def rule_table_extent(chk):
+    from sa import cfacts
+    import re as _re
+    n_tab, n_idx = 0, 0
+    for rel in ("mod_cider/sph_harm.c", "mod_cider/cider_grids.c"):
+        tu = cfacts.TU(chk.tree, rel)
+        for fname, f in tu.funcs.items():
+            loops = []
+
+            def visit(n):
+                nonlocal n_tab, n_idx
+                pushed = False
+                if n.get("kind") == "ForStmt":
+                    ks = cfacts.kids(n)
+                    cond = [k for k in ks[:-1] if k.get("kind") == "BinaryOperator" and k.get("opcode") in ("<", "<=")]
+                    if cond:
+                        ck = cfacts.kids(cond[0])
+                        lhs, rhs = cfacts.strip(ck[0]), cfacts.strip(ck[1])
+                        var = lhs.get("referencedDecl", {}).get("name") if lhs.get("kind") == "DeclRefExpr" else None
+                        bound = int(rhs["value"]) if rhs.get("kind") == "IntegerLiteral" else None
+                        loops.append((var, cond[0].get("opcode"), bound, tu.text_of(rhs)))
+                        pushed = True
+                if n.get("kind") == "ArraySubscriptExpr":
+                    ks = cfacts.kids(n)
+                    base, idx = cfacts.strip(ks[0]), cfacts.strip(ks[1])
+                    m = _re.search(r"\[(\d+)\]$", base.get("type", {}).get("qualType", "")) if base.get("kind") == "DeclRefExpr" else None
+                    if m:
+                        size = int(m.group(1))
+                        n_idx += 1
+                        tname = base.get("referencedDecl", {}).get("name")
+                        inst = "%s:%s: index of the fixed-size table %s[%d] stays inside it" % (rel, fname, tname, size)
+                        why = None
+                        if idx.get("kind") == "IntegerLiteral":
+                            if int(idx["value"]) >= size:
+                                why = "constant index %s" % idx["value"]
+                        elif idx.get("kind") == "DeclRefExpr":
+                            var = idx.get("referencedDecl", {}).get("name")
+                            lp = [l for l in loops if l[0] == var]
+                            if lp:
+                                v, op, bound, btxt = lp[-1]
+                                limit = None if bound is None else (bound if op == "<" else bound + 1)
+                                if limit is None:
+                                    why = "loop variable %s runs up to the runtime value `%s`" % (var, btxt)
+                                elif limit > size:
+                                    why = "loop variable %s runs up to %d" % (var, limit)
+                            else:
+                                why = None  # not a loop variable: not decided here
+                                chk.note("table-extent", "%s:%s" % (rel, fname), "index `%s` of %s is not a loop variable: not decided"
+                                         % (tu.text_of(idx), tname))
+                        else:
+                            chk.note("table-extent", "%s:%s" % (rel, fname), "index `%s` of %s: not decided" % (tu.text_of(idx), tname))
+                        if why:
+                            chk.violation("table-extent", "ciderpress/lib/" + rel, fname, "%s[%s]" % (tname, tu.text_of(idx)),
+                                          tu.line_of(n),
+                                          "the table %s has %d entries, but %s: for larger values the read runs past the "
+                                          "table and returns whatever follows it in memory (silently wrong harmonics)"
+                                          % (tname, size, why), instance=inst)
+                        else:
+                            chk.ok("table-extent", inst)
+                for k in cfacts.kids(n):
+                    visit(k)
+                if pushed:
+                    loops.pop()
+            visit(f)
+    chk.ok("table-extent", "sph_harm.c, cider_grids.c: %d subscripts of fixed-size tables examined" % n_idx, nontrivial=False)
+
+
+def rule_lmax_min(chk, mod, imod):
+    """the indexer reads fixed columns of the harmonic table: the producer must reject an lmax that does not provide them"""
+    init = imod.func("AtomicGridsIndexer.__init__")
+    cols = []
+    for x in pf.walk_no_nested(init):
+        if isinstance(x, ast.Subscript) and isinstance(x.value, ast.Name) and x.value.id == "ylm":
+            idx = x.slice.elts if isinstance(x.slice, ast.Tuple) else [x.slice]
+            if len(idx) == 2:
+                for c in ast.walk(idx[1]):
+                    if isinstance(c, ast.Constant) and isinstance(c.value, int):
+                        cols.append(c.value)
+    if not cols:
+        chk.ok("lmax-min", "AtomicGridsIndexer.__init__ reads no fixed column of ylm", nontrivial=False)
+        return
+    need = 0
+    while (need + 1) ** 2 <= max(cols):
+        need += 1
+    prod = mod.func("gen_atomic_grids_cider")
+    wparam, _ = producer_width_param(prod)
+    inst = "gen_atomic_grids_cider rejects %s < %d (the indexer reads column %d of ylm)" % (wparam, need, max(cols))
+    okv = False
+    holders = [prod] + [f for c in mod.classes.values() for n, f in pf.methods(c).items() if n == "__init__"]
+    for h in holders:
+        for cond, st in inline.asserted_conditions(h):
+            if isinstance(cond, ast.Compare) and len(cond.ops) == 1 and isinstance(cond.comparators[0], ast.Constant):
+                left = pf.src(cond.left)
+                if left not in (wparam, "lmax", "self.lmax"):
+                    continue
+                v = cond.comparators[0].value
+                if (isinstance(cond.ops[0], ast.GtE) and v >= need) or (isinstance(cond.ops[0], ast.Gt) and v >= need - 1):
+                    okv = True
+    if okv:
+        chk.ok("lmax-min", inst)
+    else:
+        chk.violation("lmax-min", GG, "gen_atomic_grids_cider", "%s >= %d" % (wparam, need), prod.lineno,
+                      "AtomicGridsIndexer.__init__ reads column %d of the harmonic table (grid directions from the l=1 "
+                      "harmonics), which exists only for lmax >= %d, and the C tabulation writes the l=1 entries "
+                      "unconditionally; neither gen_atomic_grids_cider nor CiderGrids.__init__ rejects a smaller lmax"
+                      % (max(cols), need), instance=inst)
+
+
+# ----------------------------------------------------------------------------
 def _analyse_own(chk):
     # helper calls are inlined one level (sa.inline) so that the rules see one body per anchored function
     prog = inline.inlined_program(chk.tree, [GG, GI])
@@ -1161,6 +1392,15 @@ def _analyse_own(chk):
     chk.rule("memo-key", "tables used as memo in grid generation are keyed by every varying input of the cached value")
     chk.guard(rule_memo_key, mod)
     chk.floor("memo-key", 1, "per-element tables of gen_atomic_grids_cider")
+    chk.rule("pyscf-mirror", "gen_atomic_grids_cider keeps every configuration step of the installed pyscf gen_atomic_grids")
+    chk.rule("table-extent", "fixed-size C tables are not indexed by loop variables with runtime bounds")
+    chk.rule("lmax-min", "the grid generator rejects an lmax too small for the columns the indexer reads")
+    chk.guard(rule_pyscf_mirror, mod)
+    chk.guard(rule_table_extent)
+    chk.guard(rule_lmax_min, mod, imod)
+    chk.floor("pyscf-mirror", 5, "param calls, defaults, charge, atom_grid keys")
+    chk.floor("table-extent", 1, "summary instance")
+    chk.floor("lmax-min", 1, "ylm[:, [3, 1, 2]]")
     chk.rule("owner-map", "iatom_list assigns each point to the atom whose half-open block [ga_loc[a], ga_loc[a+1]) contains it")
     chk.guard(rule_owner_map, imod)
     chk.floor("owner-map", 1, "AtomicGridsIndexer.set_idx")
@@ -1229,6 +1469,18 @@ def _seed_cache(with_prune):
     return fn
 
 
+
+def _revert_fac_list(text):
+    a = "#define FAC_LIST(m) (((m)&1) ? SQRT2 : -SQRT2)\n"
+    if a not in text or "FAC_LIST(m)" not in text.replace(a, ""):
+        return None
+    tab = ("const double FAC_LIST[24] = {-SQRT2, SQRT2, -SQRT2, SQRT2, -SQRT2, SQRT2,\n"
+           "                             -SQRT2, SQRT2, -SQRT2, SQRT2, -SQRT2, SQRT2,\n"
+           "                             -SQRT2, SQRT2, -SQRT2, SQRT2, -SQRT2, SQRT2,\n"
+           "                             -SQRT2, SQRT2, -SQRT2, SQRT2, -SQRT2, SQRT2};\n")
+    return text.replace(a, tab).replace("FAC_LIST(m)", "FAC_LIST[m]")
+
+
 def mutants(tree):
     return [
         Mutant("remove set_idx after sort", GG, "            self.grids_indexer.set_idx(idx)\n", "", expect="reindex"),
@@ -1286,6 +1538,15 @@ def mutants(tree):
         Mutant("per-atom fill skips the last atom", GI, "        for a in range(self.natm):\n            tmp[self.ga_loc[a]",
                "        for a in range(self.natm - 1):\n            tmp[self.ga_loc[a]", expect="owner-map"),
         Mutant("module-level element cache without prune in the key", GG, fn=_seed_cache(False), expect="memo-key"),
+        Mutant("charge of the atom from gto.charge (ghost atoms get 0)", GG, "            chg = _grid_charge(symb)\n",
+               "            chg = gto.charge(symb)\n", expect="pyscf-mirror"),
+        Mutant("atom_grid['default'] ignored", GG, "            atom_config = atom_grid.get(symb, default)\n",
+               "            atom_config = atom_grid.get(symb, None)\n", expect="pyscf-mirror"),
+        Mutant("pruning called without the radii", GG, "angs = prune(chg, rad, n_ang)", "angs = prune(chg, n_ang)", expect="pyscf-mirror"),
+        Mutant("lmax < 1 no longer rejected", GG, regex=True,
+               old=r"    if full_lmax < 1:\n(?:        #.*\n)*        raise ValueError\(\"lmax must be at least 1\"\)\n", new="",
+               expect="lmax-min"),
+        Mutant("sign factors from a 24-entry table", "ciderpress/lib/mod_cider/sph_harm.c", fn=_revert_fac_list, expect="table-extent"),
         Mutant("truncation removed", GG, "                ylm[:, nlm_shl:] = 0.0\n", "", expect="truncation"),
         Mutant("truncation keeps the wrong side", GG, "ylm[:, nlm_shl:] = 0.0", "ylm[:, :nlm_shl] = 0.0",
                expect="truncation"),
